@@ -570,6 +570,19 @@ func (f *Frame) applyContract(fc *FuncContract, key string, callee *ssa.Function
 			e.fail(f, fmt.Errorf("%s requires: %v", key, err))
 			continue
 		}
+		top := f
+		for top.parent != nil {
+			top = top.parent
+		}
+		if top.fc != nil && top.fc.SafetyOff {
+			// `nosafety`: only the labelled clauses of this function are
+			// checked; safety and call preconditions are a stated assumption
+			if !e.declared["warn:nopre:"+top.prefix] {
+				e.declared["warn:nopre:"+top.prefix] = true
+				e.warn("%s: safety obligations and call preconditions are not checked in this function (nosafety)", top.prefix)
+			}
+			continue
+		}
 		f.prove(point+"#pre", c.Label, reach, fm, nil, nil, "")
 	}
 	// released buffers (C20): slice arguments must be live; `releases` marks regions
